@@ -116,6 +116,8 @@ def concretize(hist, prelude, name, proto=True, rng=None, final_probe=True):
             steps.append({"a": a, "k": rng.choice([0, 1, 9, 60, 150, 400])})
         elif a == "Tick":
             steps.append({"a": a, "now": T0 + h["now"] * UNIT})
+        elif a == "RestartEnc":
+            steps.append({"a": a, "enc": h["enc"]})
         else:
             steps.append({"a": a})
     sched = {"name": name, "proto": proto, "log": clog, "steps": steps, "mod": [], "abs": True,
@@ -236,6 +238,49 @@ def eff_exp(ns):
     return ns if ns else DEFAULT_EXP_NS
 
 
+MSG_FIELDS = ("Id", "Session", "Type", "Data", "UnixNano", "ClientMessageId", "Revision", "RemoteAddr", "Servers", "Currentmaster")
+
+
+def check_conversion(conv):
+    """The encoding migration of a node (NewLevelDBStore -> ConvertToProto on the raft log store and
+    on the irclog): only the encoding of a stored entry may change.  conv = the raw content of both
+    stores before and after they were opened with the new encoding.
+    -> (findings [(signature, what)], drifts [what])"""
+    bad, drifts = [], []
+    for store, pre, post in (("raftlog", conv["raft_pre"], conv["raft_post"]), ("irclog", conv["irc_pre"], conv["irc_post"])):
+        a = {r["idx"]: r for r in pre}
+        b = {r["idx"]: r for r in post}
+        if set(a) != set(b):
+            bad.append(("conv-%s-keys-changed" % store, "the conversion of the %s to %s changed its keys: %s -> %s"
+                        % (store, conv["enc"], sorted(a), sorted(b))))
+            continue
+        for k in sorted(a):
+            x, y = a[k], b[k]
+            if x.get("err"):
+                continue            # unreadable before the migration: not the conversion's doing
+            if y.get("err") or (x.get("msg") and not y.get("msg")):
+                bad.append(("conv-%s-entry-undecodable" % store, "%s entry %d cannot be decoded after the conversion to %s: %s"
+                            % (store, k, conv["enc"], y.get("err"))))
+                continue
+            if (x["rafttype"], x["term"]) != (y["rafttype"], y["term"]):
+                bad.append(("conv-%s-entry-envelope-changed" % store, "%s entry %d: raft type/term %s became %s in the conversion to %s"
+                            % (store, k, (x["rafttype"], x["term"]), (y["rafttype"], y["term"]), conv["enc"])))
+                continue
+            if x.get("msg"):
+                diff = [f for f in MSG_FIELDS if x["msg"].get(f) != y["msg"].get(f)]
+                if diff:
+                    marked = x["msg"].get("Type") == T_MOD
+                    bad.append(("conv-%s-%sentry-fields-changed" % (store, "marked-" if marked else ""),
+                                "%s entry %d%s: the conversion to %s changed %s" % (
+                                    store, k, " (a marked message of death)" if marked else "", conv["enc"],
+                                    ", ".join("%s %r -> %r" % (f, x["msg"].get(f), y["msg"].get(f)) for f in diff))))
+                    continue
+            if (x.get("ext", ""), x.get("appended", 0)) != (y.get("ext", ""), y.get("appended", 0)):
+                drifts.append("%s entry %d: raft.Log.Extensions/AppendedAt %r became %r in the conversion to %s"
+                              % (store, k, (x.get("ext"), x.get("appended")), (y.get("ext"), y.get("appended")), conv["enc"]))
+    return bad, drifts
+
+
 class Judge:
     """Evaluates the predicates of DESIGN 6 "C02" on the events of one schedule."""
 
@@ -244,6 +289,8 @@ class Judge:
         self.cmd = sorted(e["idx"] for e in sched["log"] if e["kind"] == "cmd")
         self.ts = {e["idx"]: e.get("ts", 0) for e in sched["log"]}
         self.hmax = None          # newest horizon the property allows, ns
+        self.conv_drifts = []     # raft-level metadata changed by a conversion (no property predicate)
+        self.conversions = 0
 
     def cmds(self, n):
         return set(i for i in self.cmd if i <= n)
@@ -260,6 +307,12 @@ class Judge:
             raise vlib.Inconclusive("harness error in %s step %s: %s" % (ev["sched"], ev["n"], err))
         if err and not (a == "SnapshotTake" and "first index of ircstore (0)" in err):
             bad.append(("error-in-%s" % a, "%s failed on the real code: %s" % (a, err[:200])))
+        if ev.get("conv"):
+            # the encoding migration: only the encoding of a stored entry may change
+            cbad, cdrift = check_conversion(ev["conv"])
+            bad += cbad
+            self.conv_drifts += cdrift
+            self.conversions += 1
         fin = ev.get("final")
         if a == "End" and fin and not fin["eq"]:
             bad.append(("P1-active-probe-differs-at-End",
@@ -346,6 +399,12 @@ def judge_all(ctx, scheds, events, prefix=""):
         for ev in evs:
             steps += 1
             bad = j.check(ev)
+            if j.conv_drifts:
+                for d in j.conv_drifts[:2]:
+                    ctx.drift("%s [schedule %s]" % (d, name))
+                j.conv_drifts = []
+            if ev.get("conv"):
+                ctx.add("conversions_inspected", 1)
             if bad:
                 sig, what = bad[0]
                 nviol += 1
@@ -378,7 +437,7 @@ def _absstate(a):
 
 def trace_records(sched, alog, evs):
     """Harness events of an abstract-family schedule -> records for FSMTrace.tla."""
-    recs = [{"ev": "Reset", "prelude": alog[:sched.get("prestore", 0)]}]
+    recs = [{"ev": "Reset", "prelude": alog[:sched.get("prestore", 0)], "enc": "proto" if sched["proto"] else "json"}]
     cur_now = 0
     for ev in evs:
         a = ev["ev"]
@@ -402,6 +461,8 @@ def trace_records(sched, alog, evs):
                 break
             r["i"] = i
             r["e"] = alog[i - 1]
+        if a == "RestartEnc":
+            r["enc"] = st["enc"]
         if a in ("SnapshotTake", "Tick"):
             r["now"] = (st["now"] - T0) // UNIT
             if a == "SnapshotTake" and r["now"] != cur_now:
@@ -414,8 +475,10 @@ def trace_records(sched, alog, evs):
             "srv": _absstate(post.get("srv")),
             "exp": post["exp"] // UNIT if post["exp"] % UNIT == 0 else -2,
             "lss": [{"k": l["k"], "st": _absstate(l.get("abs"))} for l in post["lss"]],
-            "snaps": [{"ridx": s["ridx"], "li": s["li"], "base": _absstate(s.get("abs")), "retained": s["retained"]}
+            "snaps": [{"ridx": s["ridx"], "li": s["li"], "base": _absstate(s.get("abs")), "retained": s["retained"],
+                       "fmt": s.get("fmt") or "unreadable", "renc": s.get("renc") or []}
                       for s in post["snaps"]],
+            "enc": post["enc"], "renc": post["renc"], "ienc": post["ienc"],
             "pending": ({"none": 0, "first": pend["first"], "last": pend["last"], "li": pend["first"] - 1,
                          "ridx": pend["ridx"], "base": _absstate(pend.get("abs"))} if pend else
                         {"none": 1, "first": 0, "last": 0, "li": 0, "ridx": 0, "base": _absstate(None)}),
@@ -845,8 +908,25 @@ def gen_random(rng, name, n_entries=None, proto=None):
     # always end with: everything applied, a persisted snapshot, a process start
     steps += [{"a": "Apply", "i": 0}] * 3 + [{"a": "SnapshotTake", "now": pick_now()}, {"a": "PersistOK"}, {"a": "Restart"},
                                              {"a": "SnapshotTake", "now": pick_now()}, {"a": "PersistOK"}, {"a": "Restart"}]
-    return {"name": name, "proto": rng.random() < 0.6 if proto is None else proto, "log": log, "steps": steps,
-            "mod": [], "abs": False, "twice": True, "prestore": 0, "lenient": True}
+    return with_migration(rng, {"name": name, "proto": rng.random() < 0.6 if proto is None else proto, "log": log, "steps": steps,
+                                "mod": [], "abs": False, "twice": True, "prestore": 0, "lenient": True})
+
+
+def with_migration(rng, sched, p=0.7):
+    """A schedule of a JSON node gets, with probability p, its encoding migration: one of its process
+    starts (or an additional one) is made with the protobuf encoding.  Some entries carry raft extensions."""
+    for e in sched["log"]:
+        if rng.random() < 0.15:
+            e["ext"] = "x%d" % e["idx"]
+    if sched["proto"] or rng.random() >= p:
+        return sched
+    steps = sched["steps"]
+    restarts = [k for k, st in enumerate(steps) if st["a"] == "Restart"]
+    if restarts and rng.random() < 0.6:
+        steps[rng.choice(restarts)] = {"a": "RestartEnc", "enc": "proto"}
+    else:
+        steps.insert(rng.randint(1, max(1, len(steps) - 1)), {"a": "RestartEnc", "enc": "proto"})
+    return sched
 
 
 HMAC_SECRET = "00112233445566778899aabbccddeeff00112233445566778899aabbccddeeff"
@@ -936,5 +1016,5 @@ def gen_halfreg(rng, name, proto=None):
         if rng.random() < 0.15:
             steps += [{"a": "SnapshotTake", "now": far}, {"a": "PersistOK"}, {"a": rng.choice(["Restart", "Restore"])}]
     steps += [{"a": "Apply", "i": 0}, {"a": "SnapshotTake", "now": far}, {"a": "PersistOK"}, {"a": "Restart"}]
-    return {"name": name, "proto": rng.random() < 0.6 if proto is None else proto, "log": log, "steps": steps,
-            "mod": [], "abs": False, "twice": True, "prestore": 0, "lenient": True}
+    return with_migration(rng, {"name": name, "proto": rng.random() < 0.6 if proto is None else proto, "log": log, "steps": steps,
+                                "mod": [], "abs": False, "twice": True, "prestore": 0, "lenient": True})
